@@ -122,7 +122,7 @@ LEVEL_TEXT["C01"] = {
             "ParsingTable::get, ParsingIterator::next, StringTable get/get_raw, parse_ident (incl. short buffers, after the fix: commit), "
             "note padding/parse/iteration for every alignment, the four version-record iterators in *every* state (offset+aux and count-=1 "
             "shown overflow-free because the preceding parse succeeded), SysV/GNU hash new+find (% by bucket count/bloom size, "
-            "chain_start-table_start guarded), minimal_parse and every ElfBytes accessor, get_requirement/get_definition. "
+            "chain_start-table_start guarded), minimal_parse and every ElfBytes accessor, get_requirement/get_definition, and draining a definition's names (SymbolNamesIterator: the walk and every yielded item). "
             "Tied to the code by differential runs of all streams under catch_unwind.",
     "note": COMMON_NOTE + " Not modelled: stack exhaustion and allocation-failure aborts (the slice parser has no recursion and no allocation), 32-bit usize.",
     "technique": "Lean 4 proof of totality over a panic-tracking executable model + differential correspondence under catch_unwind",
@@ -189,10 +189,13 @@ LEVEL_TEXT["C11"] = {
             "when the bloom filter rejects or the bucket is empty, else the first run entry whose stored hash and name match), find_complete "
             "(a hashed symbol whose bloom bits are set and whose chain entry stores its hash is found by name), find_absent (a name carried by "
             "no entry of its bucket's run gives None, whatever it collides with); WFGnu and the hypotheses are shown inhabited by a concrete "
-            "table. The correspondence runs tables built per the GNU format by an independent Rust builder over name sets with duplicates, "
+            "table. Layout theorems (GnuBuild.LaidOut -> laid_out_wf / laid_out_finds_every_symbol / laid_out_absent): ANY section laid out the linker's way - "
+            "hashed symbols sorted by bucket, chain word = hash with the stop bit exactly on the last symbol of its bucket, bucket head = first symbol of the bucket, "
+            "both bloom bits of every symbol set - is well-formed, the lookup finds every hashed symbol by name and answers None for every name no hashed symbol carries, "
+            "for every number of symbols/buckets/bloom words and both classes. The correspondence runs tables built per the GNU format by an independent Rust builder over name sets with duplicates, "
             "prefixes, djb2 collisions and same-bucket absent names.",
-    "note": COMMON_NOTE + " That a given builder's output satisfies WFGnu is checked per generated table by the harness oracle (linear scan), not proved for a builder.",
-    "technique": "Lean 4 proof (soundness, completeness under WFGnu, hash function) + differential correspondence on format-built tables + linear-scan oracle",
+    "note": COMMON_NOTE + " The layout predicate (LaidOut) is stated over the decoded arrays; that the Rust test builder emits that layout is checked per generated table by the harness oracle (linear scan).",
+    "technique": "Lean 4 proof (soundness, completeness under WFGnu, linker layout => WFGnu and every symbol found, hash function) + differential correspondence on format-built tables + linear-scan oracle",
 }
 LEVEL_TEXT["C12"] = {
     "text": "Theorems for any table bytes: find_sound, empty bucket array => None, chain walk makes at most nchain steps (cyclic and self-"
@@ -200,11 +203,11 @@ LEVEL_TEXT["C12"] = {
             "for every byte string (invariant: reference state = crate state mod 2^28). Completeness on well-formed tables (WFSysV: nbucket != 0, "
             "every bucket heads a decodable chain ending at index 0 no longer than nchain): find_wf (the answer is the first symbol with the "
             "queried name on the chain of bucket elf_hash(name) mod nbucket), find_complete (a symbol on its bucket's chain is found by name), "
-            "find_absent (None when no chain element carries the name, collisions or not); WFSysV shown inhabited. The correspondence runs "
+            "find_absent (None when no chain element carries the name, collisions or not); WFSysV shown inhabited. Construction theorems (SysVBuild: the standard construction inserts symbols 1..n at the head of bucket elf_hash(name) mod nbucket): built_table_wf / built_table_finds_every_symbol / built_table_absent - every table that decodes to the construction's arrays is well-formed, every symbol is on the chain of its name's bucket (build_reach), the lookup finds every symbol by name and answers None for every name none of the n symbols carries, for every n, nbucket and set of names. The correspondence runs "
             "tables built per the gABI by an independent builder; the harness also compares sysv_hash with a C-style reference on random and "
             "exhaustive short strings.",
-    "note": COMMON_NOTE + " That a given builder's output satisfies WFSysV is checked per generated table by the harness oracle, not proved for a builder.",
-    "technique": "Lean 4 proof (soundness, completeness under WFSysV, sysv_hash = elf_hash, step bound) + differential correspondence on gABI-built tables + linear-scan / reference-hash oracle",
+    "note": COMMON_NOTE + " The construction is modelled on index functions (bucket, chain); that the Rust test builder emits those arrays is checked per generated table by the harness oracle.",
+    "technique": "Lean 4 proof (soundness, completeness under WFSysV, standard construction => WFSysV and every symbol found, sysv_hash = elf_hash, step bound) + differential correspondence on gABI-built tables + linear-scan / reference-hash oracle",
 }
 LEVEL_TEXT["C13"] = {
     "text": "Soundness theorems (any bytes): a requirement returned for symbol i is built from a Verneed record and an aux record of its chain "
@@ -228,12 +231,12 @@ LEVEL_TEXT["C14"] = {
             "padded end as next cursor) with the crate's typed reading (GNU ABI tag needs 16 bytes / build id / untyped), and fails exactly "
             "when no record fits. List level: collect_eq_layout / iteration_is_layout - the whole iteration equals `layout`, the list of "
             "records laid out back to back from offset 0, one note per record in order, ending at the first record that does not fit, for "
-            "every byte string; zero_align_collect - a zero alignment yields nothing. padUp is the least multiple of align >= x; name_str = "
+            "every byte string; zero_align_collect - a zero alignment yields nothing. Round trip (rawLayout_of_encoding / iterate_encoding): for any list of records (type, name bytes, descriptor bytes; sizes < 2^32), any non-zero alignment and both byte orders, iterating a window that holds encodeNotes of the list yields the typed reading of exactly those records in order - same count, same types, name and descriptor windows holding exactly the encoded bytes. padUp is the least multiple of align >= x; name_str = "
             "UTF-8 check + strip of all trailing NULs; each yield advances the cursor by >= 12. Tied to note.rs by a residue sweep over every "
             "(namesz, descsz) mod align with the swept record in middle and last position, arbitrary alignments, truncation and trailing "
             "garbage, bare 12-byte records, and an independent reference walker.",
     "note": COMMON_NOTE,
-    "technique": "Lean 4 proof (step = ABI record; iteration = back-to-back layout) + differential correspondence + reference note walker",
+    "technique": "Lean 4 proof (step = ABI record; iteration = back-to-back layout; decode o encode = id for note sections) + differential correspondence + reference note walker",
 }
 LEVEL_TEXT["C16"] = {
     "text": "All loops of the model are structural recursions on explicit fuel (termination kernel-checked); theorems show the supplied fuel "
@@ -271,12 +274,11 @@ LEVEL_TEXT["C08"] = {
             "and after any history of queries (allocs_bounded_after_open, allocs_bounded_history; the end > stream_len guard precedes "
             "vec![0; len]); oversized requests are BadOffset before any I/O; a cached key costs no I/O; a load_bytes(s,e) leaves the stream "
             "position untouched or inside [s,e] (load_reads_only_its_range), and so does a whole section_data query "
-            "(section_data_reads_only_its_range). Laziness at query level (each read is a range the headers "
-            "designate; open reads only ident, header tail, shdr[0] and the two tables) is compared as a coalesced (offset, bytes) trace "
+            "(section_data_reads_only_its_range). Laziness at trace level, as theorems: query_io_is_designated - every I/O event any of the 12 queries records (each seek, read-buffer allocation, read call, completed load) belongs to a byte range that query designates (Query.designates: the passed header's range; the section-name string table named by e_shstrndx / shdr[0].sh_link; the first section of the wanted type and the string table its sh_link names; SHT_DYNAMIC, or PT_DYNAMIC when there are no section headers; the version sections found by the scan and their linked string tables) in any state, under any schedule, whatever the outcome; open_is_lazy - a successful open_stream touches, after measuring the length, only the 16 ident bytes, the rest of the file header, whole section-header-sized entries at e_shoff and whole program-header-sized entries at e_phoff. The same trace is compared as a coalesced (offset, bytes) trace "
             "between model and code and checked by an oracle. Measured, not proved: std's Vec/HashMap growth policy and the header Vecs - "
             "the size-recording global allocator asserts max single allocation <= 8*len + 8 KiB.",
-    "note": COMMON_NOTE + " Partial: allocator growth policy and the per-query list of designated ranges are measured/compared, not proved.",
-    "technique": "Lean 4 proof (totality of open and every query; allocation bound as an invariant of every history; extent of a load) + recording reader / size-recording allocator correspondence",
+    "note": COMMON_NOTE + " Partial: allocator growth policy (Vec/HashMap) is measured, not proved; open_is_lazy is stated for successful opens.",
+    "technique": "Lean 4 proof (totality of open and every query; allocation bound as an invariant of every history; extent of a load; every I/O event of every query lies in a designated range; lazy open) + recording reader / size-recording allocator correspondence",
 }
 LEVEL_TEXT["C17"] = {
     "text": "For every fault schedule: a failing seek or a read error / premature EOF makes load_bytes / read_exact return an error and cache "
@@ -288,12 +290,12 @@ LEVEL_TEXT["C17"] = {
             "<query>_fault_free for section_data (compressed included), the strtab/rel/rela/notes views, segment notes, "
             "section_headers_with_strtab, section_header_by_name, symbol_table/dynamic_symbol_table, dynamic, symbol_version_table, plus the "
             "read_bytes primitive; reachable_twin combines them for every state reachable from open by any history; open_fault_free: an open that succeeds under "
-            "any schedule yields the headers of the fault-free open. Tied to the code by a "
+            "any schedule yields the headers of the fault-free open; (3) every I/O failure surfaces - Clean d d' says the schedule entries consumed between two device states contain no `fail` (seek or read) and no premature `eof` on a read: open_ok_means_no_failed_io, query_ok_means_no_failed_io (all 12 queries, any state, any schedule) and history_ok_means_no_failed_io show that an operation returns Ok only if none of its I/O calls failed (contrapositive: a failing call makes the operation return Err). Tied to the code by a "
             "fault-injecting reader driven by the same schedule as the model: a fault at every single I/O call index of every history "
             "(exhaustive over positions; error and EOF kinds, transient and permanent) plus random multi-fault schedules; oracle = the "
             "fault-free run of the real code.",
-    "note": COMMON_NOTE + " 'The faulted call itself returns Err' is proved at the load_bytes/read_exact level (head-of-schedule fault) and checked at query level by the exhaustive single-fault injection; the query-level theorems are the no-residue and no-fabrication halves.",
-    "technique": "Lean 4 proof (invariant under arbitrary fault schedules; every query's Ok answer = fault-free answer) + exhaustive single-fault injection correspondence",
+    "note": COMMON_NOTE + " The device model treats a premature Ok(0) and an error as the two failure kinds of std::io::Read; Interrupted is retried as std's read_exact does.",
+    "technique": "Lean 4 proof (invariant under arbitrary fault schedules; every query's Ok answer = fault-free answer; Ok => no failed I/O call) + exhaustive single-fault injection correspondence",
 }
 
 LEVEL_TEXT["C19"] = {
